@@ -92,6 +92,10 @@ def cases(tier, seed):
             else:
                 out[-1]["pattern"] = [["solve"], ["iter", int(rng.integers(5, 60))], ["set", "itersLimit", 3000], ["solve"]]
             out[-1]["resumed"] = True
+        elif i % 3 == 2:
+            # ... or after some iterations and a local refinement of the estimate found so far (DoLocalRefinement), then Solve
+            out[-1]["pattern"] = [["iter", int(rng.integers(2, 12))], ["local", int(rng.integers(3, 30))], ["solve"]]
+            out[-1]["refined_before_solve"] = True
         elif i % 3 == 1:
             # ... or after the first iterations were carried out in DoGlobalIteration batches
             out[-1]["pattern"] = [["iter", int(v)] for v in rng.integers(10, 60, int(rng.integers(1, 4)))] + [["solve"]]
@@ -210,7 +214,8 @@ def run_case(scn):
         fstar = upper_estimate_min(G, N, scenario.rng_for(0, "C01min", repr(scn["obj"])[:200]))
         obs["estimated_min_runs"] = 1
     best = float(t.final["v"])
-    if best != min(zs):
+    refined = any(e["ph"] == "l" for e in t.log)
+    if (best != min(zs)) if not refined else (best > min(zs)):
         viol.append({"mech": "result-not-best-trial", "reported": best, "min_trial": min(zs)})
     grid = 0.0 if N == 1 else L * 2.0 ** (-m) * (math.sqrt(N + 3.0) + math.sqrt(N) / 2.0)
     bound = (r * M_fin / 2.0) * eps + grid
@@ -222,6 +227,8 @@ def run_case(scn):
         obs["qualifying_resumed"] = 1
     if scn.get("batched"):
         obs["qualifying_batched"] = 1
+    if scn.get("refined_before_solve"):
+        obs["qualifying_refined_before_solve"] = 1
     obs["qualifying_N%d" % N] = 1
     obs["max_gap_over_bound"] = max(0.0, ratio)
     obs["trials"] = T
@@ -245,6 +252,6 @@ def finalize(obs, tier, stats):
     miss = [n for n in dims if not obs.get("qualifying_N%d" % n)]
     if miss:
         return "no qualifying run in dimension(s) %s" % miss, {}
-    if not obs.get("qualifying_threshold") or not obs.get("qualifying_flat") or not obs.get("qualifying_hidden") or not obs.get("qualifying_multiscale") or not obs.get("qualifying_resumed") or not obs.get("qualifying_batched") or not obs.get("qualifying_zigzag"):
+    if not obs.get("qualifying_threshold") or not obs.get("qualifying_flat") or not obs.get("qualifying_hidden") or not obs.get("qualifying_multiscale") or not obs.get("qualifying_resumed") or not obs.get("qualifying_batched") or not obs.get("qualifying_zigzag") or not obs.get("qualifying_refined_before_solve"):
         return "a scenario class never qualified", {}
     return None, {"qualifying_runs": q, "largest_gap_over_bound": obs.get("max_gap_over_bound")}
